@@ -93,6 +93,7 @@ func c06(c *Ctx) {
 	// an address stays invisible to Dispose from the moment it is chosen: the
 	// ownership mark happens in the critical section of the lookup (shared rule C01.R2)
 	c01R2(c)
+	c01R8(c)
 }
 
 // R1: cap check counts in-flight requests, in normal form, before every enqueue.
